@@ -116,7 +116,9 @@ def single_pass_pairing(ctx: Ctx) -> None:
         if len(lists) == 1:
             lst = next(iter(lists))
             # the consumer: zip(lst, executor.map(..., arg_gen(), ...)) or self._apply_pool*(lst, arg_gen(), ...)
-            uses = [c for c in ast.walk(parent.node) if isinstance(c, ast.Call) and any(isinstance(a, ast.Call) and isinstance(a.func, ast.Name) and a.func.id == f.name for a in ast.walk(c))
+            al = _gen_aliases(parent.node, f.name)
+            uses = [c for c in ast.walk(parent.node) if isinstance(c, ast.Call) and any((isinstance(a, ast.Call) and isinstance(a.func, ast.Name) and a.func.id == f.name)
+                                                                                          or (isinstance(a, ast.Name) and a.id in al) for a in ast.walk(c))
                     and (call_name(c) == 'zip' or call_name(c).startswith('self._apply_pool'))]
             if not uses:
                 problems.append(f'{f.name}() is not consumed together with its label list')
@@ -158,14 +160,34 @@ def single_pass_pairing(ctx: Ctx) -> None:
                     'asks for its first element (the result is silently empty and no task runs)', key=f'zip-other:{qual.split(".", 1)[1]}#{i_o}')
 
 
+def _gen_aliases(fn: ast.AST, gname: str) -> tp.Set[str]:
+    '''Locals of fn whose only definition is a call of the nested generator gname (`args = arg_gen()`).'''
+    defs: tp.Dict[str, tp.List[ast.expr]] = {}
+    for a in walk_local(fn):
+        if isinstance(a, ast.Assign):
+            for t in a.targets:
+                for x in ast.walk(t):
+                    if isinstance(x, ast.Name):
+                        defs.setdefault(x.id, []).append(a.value if x is t else None)
+        elif isinstance(a, (ast.AugAssign, ast.AnnAssign, ast.For, ast.NamedExpr)) or isinstance(a, ast.withitem):
+            tgt = getattr(a, 'target', None) or getattr(a, 'optional_vars', None)
+            if tgt is not None:
+                for x in ast.walk(tgt):
+                    if isinstance(x, ast.Name):
+                        defs.setdefault(x.id, []).append(None)
+    return {nm for nm, vs in defs.items() if len(vs) == 1 and isinstance(vs[0], ast.Call) and isinstance(vs[0].func, ast.Name) and vs[0].func.id == gname}
+
+
 def _feeds_pool(f: FuncInfo) -> bool:
     '''A nested generator whose results are paired with an external label sequence: its call is an argument of a pool helper
     (`self._apply_pool*`), or of an executor map that is itself an operand of `zip`.  (Generators whose payload carries its own
     label, as in the zip stores, are the subject of I.parallel-config-alignment.)'''
     parent = f.parent
+    al = _gen_aliases(parent.node, f.name)
 
     def mentions(c: ast.Call) -> bool:
-        return any(isinstance(a, ast.Call) and isinstance(a.func, ast.Name) and a.func.id == f.name for a in list(c.args) + [k.value for k in c.keywords])
+        return any((isinstance(a, ast.Call) and isinstance(a.func, ast.Name) and a.func.id == f.name) or (isinstance(a, ast.Name) and a.id in al)
+                   for a in list(c.args) + [k.value for k in c.keywords])
     for c in ast.walk(parent.node):
         if not isinstance(c, ast.Call):
             continue
